@@ -205,7 +205,11 @@ func (x *xl) simple(s ast.Stmt) ([]string, error) {
 				}
 				if len(vs.Values) == 0 && x.w.dom && domKind(o.Type()) != "" && domKind(o.Type()) != "any" {
 					x.optVars[o] = true
-					lines = append(lines, fmt.Sprintf("let %s := none", x.nameOf(o)))
+					vt, err := x.varLeanType(o.(*types.Var))
+					if err != nil {
+						return nil, x.errf(s, "%v", err)
+					}
+					lines = append(lines, fmt.Sprintf("let %s : %s := none", x.nameOf(o), vt))
 				} else if len(vs.Values) == len(vs.Names) && x.w.dom && domKind(o.Type()) != "" {
 					if x.nullable(vs.Values[i]) {
 						x.optVars[o] = true
@@ -560,6 +564,10 @@ func (x *xl) loopVars(nodes []ast.Node, before token.Pos, extraOutside map[types
 				}
 			case *ast.IncDecStmt:
 				mark(y.X)
+			case *ast.UnaryExpr:
+				if y.Op == token.AND && x.w.dom {
+					mark(y.X) // `&v` handed to a callee's accumulator parameter
+				}
 			case *ast.RangeStmt:
 				if y.Tok == token.ASSIGN {
 					mark(y.Key)
@@ -648,7 +656,7 @@ func (x *xl) loop(s ast.Stmt, rest []ast.Stmt, k *cont) ([]string, bool, error) 
 	} else {
 		body = rs.Body
 		nodes = []ast.Node{rs.Body}
-		if _, ok := x.typeOf(rs.X).Underlying().(*types.Map); ok && x.w.dom && domKind(x.typeOf(rs.X)) == "cont" {
+		if _, ok := x.typeOf(rs.X).Underlying().(*types.Map); ok && x.w.dom && (domKind(x.typeOf(rs.X)) == "cont" || domKind(x.typeOf(rs.X)) == "leafmap") {
 			isMapRange = true
 		}
 		if rs.Key != nil && !isMapRange {
@@ -739,7 +747,9 @@ func (x *xl) loop(s ast.Stmt, rest []ast.Stmt, k *cont) ([]string, bool, error) 
 		}
 		lines = append(lines, b...)
 		var et string
-		if isMapRange {
+		if isMapRange && domKind(x.typeOf(rs.X)) == "leafmap" {
+			et = "(String × GoDom.Leaf)"
+		} else if isMapRange {
 			et = "(String × Node)"
 		} else {
 			et, err = x.w.leanType(x.typeOf(rs.X).Underlying().(*types.Slice).Elem())
